@@ -44,8 +44,8 @@ OneController(e) == \A o \in Objs(e) : Cardinality({i \in DOMAIN o.owners : o.ow
 Frame(p, e) == e.ev = "call" => \A n \in Names(e) : Changed(p, e, n) =>
                   /\ n = e.target /\ ~e.dry /\ e.outcome = "ok"
                   /\ (Obj(p, n).exists => Obj(e, n).exists)
-OnlyActiveCreates(p, e) ==
-  \A n \in Names(e) : (Obj(e, n).exists /\ ~Obj(p, n).exists) => (e.actor \in Revs /\ RevActive(p, e.actor))
+OnlyActiveCreates(p, e) ==      \* (objects that appear at an environment step were created by somebody else)
+  e.ev # "env" => \A n \in Names(e) : (Obj(e, n).exists /\ ~Obj(p, n).exists) => (e.actor \in Revs /\ RevActive(p, e.actor))
 InactivePlainStep(p, e) ==
   \A n \in Names(e), r \in Revs : (IsCtrl(Obj(e, n), r) /\ ~IsCtrl(Obj(p, n), r)) => RevActive(p, r)
 \* a completed fault-free reconcile of an inactive revision leaves it the controller of nothing in its package
